@@ -1,5 +1,5 @@
 (* C02 correspondence: what an echoing backend saw and what the user got, against Model/HttpRewrite.v. *)
-From FRP Require Export Corr.Common Model.HttpRewrite Model.HttpAdmit gen.GenVhostTransport gen.GenMuxDeadline.
+From FRP Require Export Corr.Common Model.HttpRewrite Model.HttpAdmit gen.GenVhostTransport gen.GenMuxDeadline gen.GenGroupGlue.
 Open Scope Z_scope.
 
 Fixpoint c02_list_eqb (a b : list bytes) : bool :=
@@ -77,6 +77,17 @@ Inductive case :=
 (* a body of [size] bytes through an http proxy with a bandwidth limit of [limit] bytes/s (kind 1: response,
    server side limiter): status, digests sent / received, elapsed ms *)
 | CLimited (kind limit size status : Z) (sent got : bytes) (ms : Z)
+(* a request through a load-balancing group: as CFwd; hc_endpoint of [rc] is the member that served it (oracle of
+   the round robin), [member] the id of that member's backend; the dial address must name that member *)
+| CFwdG (rc : hr_route) (member : Z) (uq : hr_req) (reenc : bytes) (seen : c02_seen) (dial : option bytes) (resp got : hr_resp)
+(* group g1/alpha closed, another group registered on the same triple (variant 0: member of another name, 1: same
+   name): backend reached before, backend reached after, status after *)
+| CRegroup (variant first second status : Z)
+(* one member's dial stalls while a third member joins: probes sent, probes answered within the bound, ms the
+   join took (-1: not within the bound), bound *)
+| CGroupStall (probes answered join_ms bound : Z)
+(* a large close-delimited answer through frps <-quic-> frpc: size, status, digests sent / received *)
+| CQuic (size status : Z) (sent got : bytes)
 (* a request through frps (route rc) and then a plugin of frpc *)
 | CChain (rc : hr_route) (p : hr_plugin) (o : hr_popts) (plugin_client_ip : option bytes)
          (uq : hr_req) (reenc : bytes) (seen : c02_seen) (resp got : hr_resp).
@@ -221,6 +232,34 @@ Definition check_case (c : case) : Z :=
       if negb (status =? 200) then 95
       else if negb (bytes_eqb sent got) then 96
       else 0
+  | CFwdG rc member uq reenc seen dial resp got =>
+      let i := c02_in_req uq in
+      let via_proxy := negb (hr_is_empty (hq_urlhost i)) in
+      (* the endpoint the key carries is what today's glue makes of the chosen member *)
+      let chosen := match hc_endpoint rc with Some e => e | None => [] end in
+      let rc' := {| hc_domain := hc_domain rc; hc_location := hc_location rc; hc_user := hc_user rc;
+                    hc_rewrite_host := hc_rewrite_host rc; hc_headers := hc_headers rc; hc_resp_headers := hc_resp_headers rc;
+                    hc_endpoint := Some (hg_key_endpoint gen_group_glue chosen); hc_id := hc_id rc |} in
+      let pred := hr_backend_view (Some rc') reenc i in
+      c02_first_nonzero
+        [ c02_check_seen via_proxy pred seen member;
+          (if c02_opt_eqb dial (hq_urlhost (hr_backend_view (Some rc) reenc i) ++ hr_b ":80") then 0 else 6);
+          c02_check_got (hr_std_resp (Some rc) (c02_canon_resp resp)) got;
+          c02_monitor_req (hc_headers rc) uq seen;
+          c02_monitor_resp (hc_resp_headers rc) resp got ]
+  | CRegroup variant first second status =>
+      (* the pool key of a group route is domain.location.user.member-name.0: a member of another name gets its own
+         key (fresh dial -> its own backend); a member of the SAME name gets the same key, i.e. the idle connection
+         to the former member's backend (recorded finding F-C02f) *)
+      let expect := if variant =? 1 then 1 else 2 in
+      if negb (first =? 1) then 101 else if negb (second =? expect) then 102 else if negb (status =? 200) then 103 else 0
+  | CGroupStall probes answered join_ms bound =>
+      (* with three members in turn at most every third request meets the stalling one *)
+      if (join_ms <? 0) || (bound <? join_ms) then 105
+      else if answered * 2 <? probes then 106
+      else 0
+  | CQuic size status sent got =>
+      if negb (status =? 200) then 108 else if negb (bytes_eqb sent got) then 109 else 0
   | CKeep compressed answered =>
       (* [pending] (was the server's background read in flight when the handler returned) is an oracle: it is
          read off the observation (the next request got no answer <-> the read had been interrupted); the model
@@ -289,3 +328,7 @@ Definition is_aged (c : case) : bool :=
   match c with CAged t chunks _ ages _ => existsb (fun ch => t <=? fst ch) chunks && existsb (fun a => t <=? a) ages | _ => false end.
 Definition is_bighead (c : case) : bool := match c with CBigHead n _ _ _ => 20480 <? n | _ => false end.
 Definition is_limited (c : case) : bool := match c with CLimited _ l s _ _ _ _ => l <? s | _ => false end.
+Definition is_fwdg (c : case) : bool := match c with CFwdG _ _ _ _ _ _ _ _ => true | _ => false end.
+Definition is_regroup (c : case) : bool := match c with CRegroup _ _ _ _ => true | _ => false end.
+Definition is_groupstall (c : case) : bool := match c with CGroupStall _ _ _ _ => true | _ => false end.
+Definition is_quic (c : case) : bool := match c with CQuic s _ _ _ => 1000000 <? s | _ => false end.
